@@ -387,3 +387,30 @@ func (w *World) ExprAt(pos token.Pos) string {
 	}
 	return "?"
 }
+
+// ExprNear returns the text of the smallest expression that contains pos.
+func (w *World) ExprNear(pos token.Pos) string {
+	if !pos.IsValid() {
+		return "?"
+	}
+	for _, p := range w.All {
+		for _, f := range p.Syntax {
+			if f.Pos() <= pos && pos <= f.End() {
+				var best ast.Expr
+				ast.Inspect(f, func(n ast.Node) bool {
+					if n == nil || n.Pos() > pos || n.End() < pos {
+						return n == nil || (n.Pos() <= pos && pos <= n.End())
+					}
+					if e, ok := n.(ast.Expr); ok {
+						best = e
+					}
+					return true
+				})
+				if best != nil {
+					return types.ExprString(best)
+				}
+			}
+		}
+	}
+	return "?"
+}
